@@ -81,6 +81,10 @@ class Line(_Geom):
         vect = np.reshape(AsCoords(coord), (-1, 3)) - self.pt1.coord
         unitVector = self.unitVector
 
+        # tol is relative to the size of the numbers involved (segment length, distance of the segment
+        # to the origin): the round-off of the distances below grows with them, whatever the length unit
+        tol = tol * max(self.length, np.abs(self.pt1.coord).max(), np.abs(self.pt2.coord).max())
+
         # distance to the infinite line, then abscissa clamped to the segment
         gap = np.linalg.norm(np.cross(vect, unitVector), axis=1)
         abscissa = vect @ unitVector
